@@ -361,9 +361,15 @@ def check_kills(w, jobs, pres, posts, events, out, case, coq):
         # model: the events of the fault-free run up to the point, then nothing
         att = events_before_point(events[step], k)
         if att is not None and coq_wanted(coq, step, events[step][0], out):
-            coq['txn'].append(('(%s, %s, None, %s)' % (cevs(events[step][0]), cevs(att), oc), c,
-                               'step=%s kill at point %d (%s) attempt=%s outcome=%s'
-                               % (step, k, point[0], summarize(att), oc)))
+            try:
+                lit = '(%s, %s, None, %s)' % (cevs(events[step][0]), cevs(att), oc)
+            except ValueError as e:     # an action the model has no event for (already reported by the shape stage)
+                out.count('kill:event-outside-model')
+                lit = None
+                out.violation('corr', '`%s` killed at point %d: %s' % (step, k, e), case=c)
+            if lit is not None:
+                coq['txn'].append((lit, c, 'step=%s kill at point %d (%s) attempt=%s outcome=%s'
+                                   % (step, k, point[0], summarize(att), oc)))
         tr2, exc2 = T.run_cli(w.argv(step, db))
         again = D.dump(db)
         if again != posts[step] or (oc == 'OPre' and exc2 is not None):
